@@ -129,7 +129,7 @@ func (v *VerifCron) ScheduleNext(next time.Time) { v.c.schedule(next) }
 func (v *VerifCron) SpoolAll() []gen.Atom {
 	var r []gen.Atom
 	for item := v.c.spool.Item(); item != nil; item = item.Next() {
-		r = append(r, item.Value().(*cronJob).job.Name)
+		r = append(r, item.Value().(cronSpoolItem).cj.job.Name)
 	}
 	return r
 }
